@@ -150,6 +150,20 @@ def scalars(ctx, n):
     for _ in range(4):
         c, v = vals.wide_value(rng)
         ctx.add('gp.from_uniform', v.to_bytes(64, 'little').hex(), expect=[to32(v % L).hex()], cls='from-uniform')
+    for _ in range(4):
+        b = vals.rb(rng, 64)
+        e = to32(le(b) % L).hex()
+        ctx.add('misc.sc_random', b.hex(), expect=[e, e], cls='from-uniform')
+        # Group::random for EdwardsPoint: rejection sampling over 32-byte blocks of the RNG stream (then zeros)
+        blocks = [b[:32], b[32:]] + [bytes(32)] * 4
+        exp = None
+        for blk in blocks:
+            m = ref.ed_decompress(blk)
+            if m is not None and m != ref.IDENT:
+                exp = ref.ed_compress(m).hex()
+                break
+        if exp:
+            ctx.add('misc.ed_random', b.hex(), expect=[exp], cls='group-random')
     for v in [0, 1, L - 1, rng.randrange(L)]:
         ctx.add('gp.from_str', 's%d' % v, expect=['some', to32(v).hex()], cls='from-str')
 
